@@ -165,25 +165,25 @@ Fixpoint uanswers (kf : str -> str) (ops : list uop) (st : ustore) : list Z :=
   end.
 
 (* SPEC of a history: the last put addressed to the same (array name, start tuple); markers by array name *)
-Fixpoint last_put (ops : list uop) (arr : str) (starts : list Z) (acc : Z) : Z :=
+Fixpoint ulast_put (ops : list uop) (arr : str) (starts : list Z) (acc : Z) : Z :=
   match ops with
   | [] => acc
-  | UPut a s v :: t => last_put t arr starts (if str_eq_dec a arr then if zs_eq_dec s starts then v else acc else acc)
-  | _ :: t => last_put t arr starts acc
+  | UPut a s v :: t => ulast_put t arr starts (if str_eq_dec a arr then if zs_eq_dec s starts then v else acc else acc)
+  | _ :: t => ulast_put t arr starts acc
   end.
-Fixpoint was_marked (ops : list uop) (arr : str) (acc : bool) : bool :=
+Fixpoint uwas_marked (ops : list uop) (arr : str) (acc : bool) : bool :=
   match ops with
   | [] => acc
-  | UMark a :: t => was_marked t arr (if str_eq_dec a arr then true else acc)
-  | _ :: t => was_marked t arr acc
+  | UMark a :: t => uwas_marked t arr (if str_eq_dec a arr then true else acc)
+  | _ :: t => uwas_marked t arr acc
   end.
 Fixpoint spec_answers (ops : list uop) (done : list uop) : list Z :=
   match ops with
   | [] => []
   | op :: t =>
       let a := match op with
-               | UGet arr starts => last_put done arr starts (-1)
-               | UIsComplete arr => if was_marked done arr false then 1 else 0
+               | UGet arr starts => ulast_put done arr starts (-1)
+               | UIsComplete arr => if uwas_marked done arr false then 1 else 0
                | _ => 0
                end in
       a :: spec_answers t (done ++ [op])
